@@ -265,7 +265,10 @@ def _form_ok(variant, form):
             'rst': variant.startswith('tcp'), 'sack': variant == 'sack'}.get(form, True)
 
 def check_C08(ctx):
-    engines(ctx, 'C08', ['EngineParallelMC_cancel.cfg', 'EngineParallelMC_cancel_long.cfg'], ['EngineSerialMC_cancel.cfg', 'EngineSerialMC_cancel_long.cfg'], ['C08'])
+    if ctx.quick():
+        engines(ctx, 'C08', ['EngineParallelMC_cancel_long.cfg'], ['EngineSerialMC_cancel_long.cfg'], ['C08'])
+    else:
+        engines(ctx, 'C08', ['EngineParallelMC_cancel.cfg', 'EngineParallelMC_cancel_long.cfg'], ['EngineSerialMC_cancel.cfg', 'EngineSerialMC_cancel_long.cfg'], ['C08'])
     rule = ctx_rule(ctx)
     scen = vt.tlc_generate(ctx, 'GenWire', 'C08', 0)
     # stalled HTTP providers / resolvers: the provider scripts of Enrich!PubAll, the slow-resolver documents of GenDoc!C18All
